@@ -209,7 +209,14 @@ class Executor:
                 return self.seq_of_items(items, t)
             if isinstance(t, List) and isinstance(v.t, List) and t.elt == v.t.elt:
                 return v
+            if isinstance(t, Obj) and isinstance(v.t, Obj) and t.cls in self.reg.mro(v.t.cls):
+                return Val(t, v.z)        # upcast: same reference
             raise Untranslatable(f"cannot coerce {v.t} to {t}")
+        if isinstance(v, tuple) and v and v[0] in ("listlit", "listcomp"):
+            inner = v[1]
+            if isinstance(inner, View) and isinstance(t, Seq):
+                return self.materialise(inner, st, t.elt)
+            return self.coerce(inner, t, st)
         if isinstance(v, PyTuple):
             if isinstance(t, Seq):
                 return self.seq_of_items([self.coerce(i, t.elt, st) for i in v.items], t)
@@ -340,8 +347,20 @@ class Executor:
         k = ("val", v.t.name(), v.t.k, v.t.v)
         self.heap.set(st, k, z3.Store(self.heap.get(st, k), v.z, a))
 
+    def unhashable(self, x):
+        """A key that contains a list (list display, list comprehension, sorted(...) result) cannot be hashed."""
+        if isinstance(x, tuple) and x and x[0] in ("listlit", "listcomp"):
+            return True
+        if isinstance(x, PyTuple):
+            return any(self.unhashable(i) for i in x.items)
+        if isinstance(x, Val) and isinstance(x.t, (List, Dict, Set)):
+            return True
+        return False
+
     def contains(self, st, c, x):
         """`x in c` as SMT Bool."""
+        if isinstance(c, Val) and isinstance(c.t, (Dict, Set)) and self.unhashable(x) and not self.spec:
+            self.fork_raise(st, z3.BoolVal(True), "TypeError")
         if isinstance(c, Unknown) or isinstance(x, Unknown):
             return fresh("unk", z3.BoolSort())
         if isinstance(c, Val):
@@ -352,7 +371,8 @@ class Executor:
                 x = self.coerce(x, c.t.elt, st)
                 if c.parts and c.parts[0] == "items":
                     return z3.Or([x.z == i.z for i in c.parts[1]]) if c.parts[1] else z3.BoolVal(False)
-                return z3.Contains(c.z, z3.Unit(x.z))
+                j = fresh("j", z3.IntSort())
+                return z3.Exists([j], z3.And(0 <= j, j < self.seq_len(c), self.seq_nth(c, j).z == x.z))
             if isinstance(c.t, Obj):
                 m = self.reg.find_method(c.t.cls, "__contains__")
                 if m is not None:
@@ -375,6 +395,8 @@ class Executor:
 
     def add_key(self, st, c, x):
         """set.add / dict key insertion (cardinality kept)."""
+        if self.unhashable(x) and not self.spec:
+            self.fork_raise(st, z3.BoolVal(True), "TypeError")
         x = self.coerce(x, c.t.k, st)
         d = self.dom(st, c)
         was = z3.Select(d, x.z)
